@@ -197,7 +197,7 @@ func TestRegenerationReproducesCheckedInFile(t *testing.T) {
 func lrRun(kinds []string) (accepted bool, errAt int, events []int) {
 	stack := []int{0}
 	i := 0
-	for steps := 0; steps < 100000; steps++ {
+	for steps := 0; steps < 5000000; steps++ {
 		a := grammar.Endmarker
 		if i < len(kinds) {
 			a = grammar.Terminal(kinds[i])
@@ -508,6 +508,8 @@ func TestDeepAndLongSequences(t *testing.T) {
 			nest(n, func() { alts(k + 1) })
 			kinds = append(kinds, ";")
 		case "decls":
+			// long specifications: the number of driver steps is not bounded either (about ten per declaration)
+			n *= rapid.SampledFrom([]int{1, 1, 3, 6}).Draw(t, "longer")
 			for i := 0; i < n; i++ {
 				kinds = append(kinds, "IDENT", "=", operand())
 				if rapid.Bool().Draw(t, "semi") {
